@@ -164,6 +164,9 @@ theorem Sto_eq (v1 a1 v2 a2 ghk bhk gs bs tap phi : ℝ) :
 theorem yh_eq (d : LineP ℝ) : yh d = ((d.u * Line_gh d : ℝ) : ℂ) + ((d.u * Line_bh d : ℝ) : ℂ) * I := by
   unfold yh Line_gh Line_bh; push_cast; norm_num; ring
 
+theorem yk_eq (d : LineP ℝ) : yk d = ((d.u * Line_gk d : ℝ) : ℂ) + ((d.u * Line_bk d : ℝ) : ℂ) * I := by
+  unfold yk Line_gk Line_bk; push_cast; norm_num; ring
+
 
 theorem one_lit : (1.0 : ℝ) = 1 := by norm_num
 
